@@ -123,9 +123,25 @@ def rule_m2(chk: Check, ix: Index):
     chk.require(table == {")": "(", "]": "[", "}": "{"}, "M2-delimiter-tables", "Tokenizer._end_parens", f.where,
                 f"closing brackets must map to their own openers; found {table}")
     g = ix.get("Tokenizer.consume_macro_params")
-    tests = [n for n in own_nodes(g.node) if isinstance(n, ast.Compare) and "tok.string[-1]" in norm_stmt(n.left)]
+    import types
+    from .. import constfold
+    pushes = [n for n in own_nodes(g.node) if isinstance(n, ast.If) and any(
+        isinstance(c, ast.Call) and norm_stmt(c.func) == "paren_level.append" for s0 in n.body for c in ast.walk(s0))]
     chk.count("M2-delimiter-tables")
-    ok = len(tests) == 1 and isinstance(tests[0].comparators[0], ast.Constant) and set(tests[0].comparators[0].value) == set("([{")
+    ok = len(pushes) == 1
+    if ok:
+        kinds = sorted(repo.token_enum_names())
+        Token = types.SimpleNamespace(**{k: ("Token", k) for k in kinds})
+        for kind in ("OP", "STRING", "COMMENT", "FSTRING_MIDDLE", "NAME"):
+            for s0 in ("(", "[", "{", "$(", "@(", "![", "${", "@$(", ")", "]", "}", "+", "a(", "x["):
+                tok = types.SimpleNamespace(type=("Token", kind), string=s0)
+                try:
+                    got = bool(constfold.fold_expr(pushes[0].test, {"tok": tok, "Token": Token}, data_attrs=("type", "string") + tuple(kinds)))
+                except Exception:
+                    ok = False
+                    break
+                if got != (kind == "OP" and s0[-1] in "([{"):
+                    ok = False
     chk.require(ok, "M2-delimiter-tables", "consume_macro_params:openers", g.where,
                 "the opener test must recognise exactly ( [ { as the last character of an operator (the tokenizer's own bracket rule)")
     # raw tokenizer uses the same opener characters
@@ -175,10 +191,34 @@ def rule_m4(chk: Check, ix: Index, I):
                 "M4-builders", "macro_call:argument-order", f.where, "call_macro takes (function, raw arguments, globals(), locals()) in that order")
     # proc_macro_arg: join in order, strip
     g = ix.get("Parser.proc_macro_arg")
-    joins = [norm_stmt(n) for n in own_nodes(g.node) if isinstance(n, ast.Assign) and norm_stmt(n.targets[0]) == "st"]
+    from .. import constfold
+
+    class FakeTok:
+        def __init__(self, string):
+            self.string = string
+
     chk.count("M4-builders")
-    chk.require(joins == ["st = ''.join((tok.string if isinstance(tok, TokenInfo) else tok for tok in a)).strip()"], "M4-builders",
-                "proc_macro_arg:join", g.where, f"the raw subprocess-macro text is the pieces joined in order, stripped; found {joins}")
+    consts = [n for n in ast.walk(g.node) if isinstance(n, ast.Call) and norm_stmt(n.func) == "ast.Constant"]
+    vals = [k.value for c in consts for k in c.keywords if k.arg == "value"]
+    param = [a.arg for a in g.node.args.args if a.arg != "self"][0]
+    why = ""
+    if len(vals) != 1:
+        why = f"{len(vals)} Constant values built"
+    else:
+        cases = [([FakeTok("echo"), FakeTok(" "), "(a  b)", FakeTok("\t"), FakeTok("x")], "echo (a  b)\tx"),
+                 ([FakeTok("  "), FakeTok("a"), FakeTok("   "), FakeTok("b"), FakeTok(" \t")], "a   b"),
+                 ([FakeTok("\t"), "q", FakeTok("\f")], "q")]
+        for pieces, want in cases:
+            try:
+                got = constfold.eval_local_value(g.node, vals[0], {param: pieces}, data_attrs=("string",), extra={"TokenInfo": FakeTok})
+            except constfold.PureEvalError as e:
+                why = f"text not evaluable: {e}"
+                break
+            if got != want:
+                why = f"pieces {[getattr(x, 'string', x) for x in pieces]} give {got!r}, expected {want!r}"
+                break
+    chk.require(not why, "M4-builders", "proc_macro_arg:join", g.where,
+                f"the raw subprocess-macro text is the pieces joined in order, unchanged inside, stripped of surrounding white space: {why}")
     # with macro: body text is the captured token's string
     h = ix.get("Parser.handle_with_macro_stmt")
     chk.count("M4-builders")
